@@ -25,12 +25,6 @@ def encExcl : Option (Excl Int) → String
   | some (.num i) => "(n " ++ toString i ++ ")"
   | some (.flag b) => "(b " ++ (if b then "1" else "0") ++ ")"
 
-def container? : SX → Option (String × List String)
-  | .list (k :: names) => match k.str?, names.mapM SX.str? with
-    | some k, some ns => some (String.ofList k, ns.map String.ofList)
-    | _, _ => none
-  | _ => none
-
 def body? : SX → Option Body
   | .atom "empty" => some .empty
   | .atom "keywords" => some .keywordsOnly
@@ -44,6 +38,12 @@ def entry? : SX → Option (String × Body)
     | _, _ => none
   | _ => none
 
+def containerEntries? : SX → Option (String × List (String × Body))
+  | .list (k :: es) => match k.str?, es.mapM entry? with
+    | some k, some es => some (String.ofList k, es)
+    | _, _ => none
+  | _ => none
+
 def handlers : List (String × Handler) := [
   ("bounds.normalise", fun
     | [mn, mx, emn, emx] => match num? mn, num? mx, excl? emn, excl? emx with
@@ -54,9 +54,12 @@ def handlers : List (String × Handler) := [
             ++ encExcl r.exclusiveMinimum ++ " " ++ encExcl r.exclusiveMaximum
       | _, _, _, _ => "err args"
     | _ => "err args"),
-  -- defs.pick (x64,65,66 xNAME …) … : names of the container that is walked
-  ("defs.pick", fun cs => match cs.mapM container? with
-    | some cs => "ok " ++ " ".intercalate ((pickContainer cs containerKeys).map (fun s => encodeStr s.toList))
+  -- defs.doc (x64,65,66 (xNAME body) …) … : one item per container of the document (root key, entries in order);
+  -- reply: the (container path, name) pairs that become definitions, in walk order, or `error`
+  ("defs.doc", fun cs => match cs.mapM containerEntries? with
+    | some cs => match walkDoc cs containerPaths with
+      | some ws => "ok " ++ " ".intercalate (ws.map (fun w => "(" ++ encodeStr w.1.toList ++ " " ++ encodeStr w.2.toList ++ ")"))
+      | none => "error"
     | none => "err args"),
   -- defs.walk (xNAME empty|keywords|typed|notmapping) … : names handed to parse_raw_obj, or `error`
   ("defs.walk", fun es => match es.mapM entry? with
